@@ -324,6 +324,12 @@ void zzDivMod(word b[], const word divident[], const word a[],
 	ASSERT(wwCmp(divident, mod, n) < 0);
 	ASSERT(wwIsDisjoint(b, mod, n));
 	ASSERT(zzIsOdd(mod, n) && mod[n - 1] != 0);
+	// a == 0 => gcd(a, mod) == mod != 1 (или mod == 1): b <- 0
+	if (wwIsZero(a, n))
+	{
+		wwSetZero(b, n);
+		return;
+	}
 	// da <- divident, da1 <- 0
 	wwCopy(da, divident, n);
 	wwSetZero(da1, n);
@@ -378,7 +384,8 @@ void zzDivMod(word b[], const word divident[], const word a[],
 	if (!wwIsW(u, nu, 1))
 		wwSetZero(b, n);
 	// здесь da * a == divident \mod mod
-	wwCopy(b, da, n);
+	else
+		wwCopy(b, da, n);
 	// очистка
 	nu = nv = 0;
 }
@@ -506,7 +513,10 @@ size_t zzAlmostInvMod(word b[], const word a[], const word mod[], size_t n,
 	EXPECT(wwIsW(v, nv, 1));
 	// \gcd(a, mod) != 1? b <- 0
 	if (!wwIsW(v, nv, 1))
+	{
 		wwSetZero(b, n);
+		return k;
+	}
 	// da >= mod => da -= mod
 	if (wwCmp2(da, n + 1, mod, n) >= 0)
 		da[n] -= zzSub2(da, mod, n);
